@@ -23,7 +23,13 @@ Pipeline
     pairwise distinct) / get_defaults / format_help — on accepted configurations and on inputs that make the
     call raise midway.  Any difference is a violation, unless its signature is the open finding
     C08-ordereddict-shared (an OrderedDict or a tuple subclass on the path to the changed container).
-(4) replay of the repaired findings F10, F11 and of the open finding's witness.
+    Histories: per scenario a random sequence (4-8 steps) of operations on a fresh parser in which results are fed back as
+    arguments and the caller's own mutable objects are made declared defaults (set_defaults); before/after EVERY step
+    everything the caller holds (own objects + all earlier results) is snapshotted; the whole history is also run through
+    the model (`runHist`, theorem C08_history_exact).  Declared defaults of every container kind (set, frozenset, dict/list
+    subclasses, dataclass instance, lazy_instance, Path objects, OrderedDict, namedtuple) through add_argument(default=) and
+    set_defaults; exotic container kinds inside Any-typed configuration values; the empty configuration for every operation.
+(4) replay of the repaired findings F10, F11, F29 and of the open finding's witness.
 """
 from __future__ import annotations
 
@@ -42,17 +48,28 @@ from ..lib.common import Ctx, MachineryError, repo_python_path
 
 MANIFEST = {
     "engine": "E11-Heap",
-    "technique": "Lean 4 frame theorems over identity-tagged trees (write sets disjoint from the arguments) + regenerated copy-policy, "
-                 "copy-site and bracket tables + write-set correspondence + deep-snapshot oracle around every real call",
-    "text": "Theorems in lean/Jap/Props/C08.lean prove for all trees and counters that dump, validate, merge_config, strip_unknown, "
-            "parse_object and instantiate_classes write only identities they created themselves (exactly: at most the containers "
-            "recreate_branches still shares, i.e. the open OrderedDict finding), that get_defaults hands out copies, that two instantiations "
-            "create disjoint object sets, one per spec, and that every `finally` bracket restores its variable for every body and outcome. "
-            "The model's copy policy, copy sites and bracket table are regenerated from /repo each run; model and code are compared on "
-            "generated values; the property itself is evaluated by deep snapshots around every real call.",
-    "level_note": "Trusted: Lean kernel; axioms propext/Quot.sound/Classical.choice only; the extractors (ast + live probe); the snapshot "
-                  "harness. The mutators of the model are worst case (write every container of the working copy). Outside: aliasing inside "
-                  "one value, objects of user classes, link targets, jsonnet/ext_vars, fsspec/url paths.",
+    "technique": "Lean 4 frame theorems over identity-tagged trees (write sets disjoint from the arguments), per operation and for "
+                 "histories of any length (induction over the operation list, results fed back as arguments) + regenerated copy-policy, "
+                 "copy-site, live entry-point-probe and bracket tables + write-set correspondence (single operations and whole "
+                 "histories) + deep-snapshot oracle around every real call",
+    "text": "Theorems in lean/Jap/Props/C08.lean prove for all trees and counters that dump, validate (also with branch=), merge_config, "
+            "strip_unknown, parse_object, parse_args (argv list and namespace argument), parse_string/path/env, save (single and "
+            "multifile) and instantiate_classes (the empty configuration included) write only identities they created themselves "
+            "(exactly: at most the containers recreate_branches still shares, i.e. the open OrderedDict finding), that get_defaults hands "
+            "out copies, that two instantiations create disjoint object sets, one per spec, that every `finally` bracket restores its "
+            "variable for every body and outcome, and - C08_history_exact/partial/continues - that in a history of any length over these "
+            "operations plus set_defaults/add_argument(default=) (the parser keeps the caller's object: modelled so) no object the caller "
+            "held at the start and no declared default is ever written, whichever earlier results are fed back as arguments. The model's "
+            "copy policy, copy sites (ast), strip_meta-of-empty behaviour and 21 live entry-point probes and the bracket table are "
+            "regenerated from /repo each run and pinned by tie_* theorems (an entry point that cannot be probed is a broken tie); model "
+            "and code are compared on generated values, operations and histories; the property itself is evaluated by deep snapshots "
+            "around every real call.",
+    "level_note": "Trusted: Lean kernel; axioms propext/Quot.sound/Classical.choice only; the extractors (ast + live probes); the snapshot "
+                  "harness. The mutators of the model are worst case (write every container of the working copy). The history theorem "
+                  "protects what the caller held at the start and the declared defaults; that a LATER operation does not write an EARLIER "
+                  "result is checked by the oracle on real histories, not proved (it needs a preservation lemma for `sharedMut = []`). "
+                  "Outside: aliasing inside one value, objects of user classes, link compute_fn bodies, jsonnet/ext_vars, fsspec/url paths; "
+                  "os.environ / sys.argv / cwd are observed by the oracle and covered in the model only through the bracket theorems.",
 }
 
 FINDING = "C08-ordereddict-shared"
@@ -134,6 +151,25 @@ def usermod():
 
 
 NT = collections.namedtuple("NT", ["x", "y"])
+
+
+class MyList(list):
+    """a list subclass (recreate_branches copies it into a plain list)"""
+
+
+def exotic_value(rng):
+    """container kinds beyond list/tuple/dict for an Any-typed slot: dict and list subclasses, frozenset, set of tuples,
+    and the two kinds of the open finding (OrderedDict, namedtuple)"""
+    return rng.choice([
+        lambda: collections.defaultdict(list, a=[1, [2]], b=(3, [4])),
+        lambda: MyList([[1], {"k": [2]}, (3, [4])]),
+        lambda: frozenset({(1, 2), (3,)}),
+        lambda: {(1, (2, 3)), (4,)},
+        lambda: [collections.defaultdict(dict, k={"j": [1]}), MyList([5])],
+        lambda: collections.OrderedDict(a=[1, (2, [3])]),
+        lambda: NT(1, [2, [3]]),
+        lambda: collections.Counter(a=2),
+    ])()
 
 
 # ====================================================================== snapshots
@@ -624,6 +660,8 @@ def gen_scenario(rng, odict=False):
         sc["default_config"] = rng.choice(["valid", "valid", "invalid"])
     if rng.random() < 0.15:
         sc["subcommand"] = True
+    if rng.random() < 0.3:
+        sc["group"] = True   # a class group whose parameters all have defaults: instantiated even from an empty configuration
     return sc
 
 
@@ -670,6 +708,8 @@ def build_parser(sc, workdir):
             else:
                 akw["default"] = copy.deepcopy(d["value"])
         p.add_argument("--" + a["name"], **akw)
+    if sc.get("group"):
+        p.add_class_arguments(m.Base, "grp")
     if sc.get("subcommand"):
         from typing import Dict, List, Tuple
 
@@ -1327,6 +1367,13 @@ def run_scenario(ctx, batch, sc, origin, only_op=None):
             ob = observe(parser, "parse_object:namespace:" + tag, lambda arg=arg: parser.parse_object(arg), {"cfg_obj": arg})
             J(ob, "parse_object")
             correspond_op(batch, "parse_object", ob, ["cfg_obj"], replay)
+            arg = copy.deepcopy(nested)
+            ob = observe(parser, "parse_object:dict:defaults=False:" + tag, lambda arg=arg: parser.parse_object(arg, defaults=False), {"cfg_obj": arg})
+            J(ob, "parse_object")
+            if cfg is not None and tag == "ok":
+                arg, base = cfg.clone(), cfg.clone()
+                ob = observe(parser, "parse_object:accepted+base:defaults=False", lambda arg=arg, base=base: parser.parse_object(arg, cfg_base=base, defaults=False), {"cfg_obj": arg, "cfg_base": base})
+                J(ob, "parse_object")
             if cfg is not None and tag == "ok":
                 # an accepted configuration (tuples, sets, enum members inside) as object and as base
                 arg, base = cfg.clone(), cfg.clone()
@@ -1342,6 +1389,11 @@ def run_scenario(ctx, batch, sc, origin, only_op=None):
             if cfg is not None and tag == "ok":
                 nsarg = cfg.clone()
                 ob = observe(parser, "parse_args:namespace", lambda argv=argv, nsarg=nsarg: parser.parse_args(argv[:1], namespace=nsarg), {"args": argv, "namespace": nsarg})
+                J(ob, "parse_args")
+                correspond_op(batch, "parse_args", ob, ["args", "namespace"], replay)
+                # the same without the parser's defaults (nothing to merge the namespace into: seed C08-2B)
+                nsarg = cfg.clone()
+                ob = observe(parser, "parse_args:namespace:defaults=False", lambda argv=argv, nsarg=nsarg: parser.parse_args(argv[:1], namespace=nsarg, defaults=False), {"args": argv, "namespace": nsarg})
                 J(ob, "parse_args")
             # through a config file in another directory (change_to_path_dir around the load)
             cdir = tempfile.mkdtemp(prefix="cfgdir_", dir=workdir)
@@ -1404,6 +1456,15 @@ def run_scenario(ctx, batch, sc, origin, only_op=None):
                 c[key] = NT(*v)
                 cfgs.append(("namedtuple", c))
                 break
+    any_args = [a["name"] for a in sc["args"] if a["type"] == "Any"]
+    if any_args:
+        c = cfg.clone()
+        for name in any_args:
+            c[name] = exotic_value(rng)
+        cfgs.append(("exotic", c))
+        ctx.hist("container-kinds", "exotic-config")
+    # the empty configuration (strip_meta handed it back itself before fix F29)
+    cfgs.append(("empty", Namespace()))
     # a configuration whose instantiation raises midway (after other objects were built)
     boom = None
     for a in sc["args"]:
@@ -1416,6 +1477,11 @@ def run_scenario(ctx, batch, sc, origin, only_op=None):
             ob = observe(parser, "validate:" + tag, lambda arg=arg: parser.validate(arg), {"cfg": arg})
             J(ob, "validate")
             correspond_op(batch, "validate", ob, ["cfg"], replay)
+            if isinstance(c.get("g"), Namespace):
+                arg = c.clone().g
+                ob = observe(parser, "validate:branch:" + tag, lambda arg=arg: parser.validate(arg, branch="g"), {"cfg": arg})
+                J(ob, "validate")
+                correspond_op(batch, "validate_branch", ob, ["cfg"], replay, branch="g")
         if want("dump"):
             for fmt, kw in (("yaml", {}), ("json", {}), ("json_indented", {"skip_none": False}), ("parser_mode", {"skip_default": True}), ("yaml", {"skip_validation": True, "yaml_comments": False})):
                 arg = c.clone()
@@ -1429,6 +1495,7 @@ def run_scenario(ctx, batch, sc, origin, only_op=None):
                 path = os.path.join(sdir, "out.yaml")
                 ob = observe(parser, "save:%s:%s" % (tag, "multi" if multifile else "single"), lambda arg=arg, path=path, multifile=multifile: parser.save(arg, path, multifile=multifile, overwrite=True), {"cfg": arg})
                 J(ob, "save")
+                correspond_op(batch, "save", ob, ["cfg"], replay, multifile=multifile)
         if want("strip_unknown"):
             arg = c.clone()
             arg["zz_unknown"] = [1, (2, [3])]
@@ -1444,9 +1511,29 @@ def run_scenario(ctx, batch, sc, origin, only_op=None):
             correspond_op(batch, "merge", ob, ["cfg_from", "cfg_to"], replay)
             if tag == "accepted":
                 result_sharing(batch, "merge", ob, ["cfg_from", "cfg_to"], replay)
+    if want("save") and sc.get("group"):
+        # a configuration holding a value loaded from its own file (`__path__` meta): multifile save replaces it by the file
+        # name — in its clone, never in the caller's configuration
+        vdir = tempfile.mkdtemp(prefix="val_", dir=workdir)
+        vpath = os.path.join(vdir, "value.json")
+        with open(vpath, "w") as f:
+            json.dump({"x": 4}, f)
+        try:
+            cmeta = parser.parse_args(["--grp=" + vpath], with_meta=True)
+        except BaseException:  # noqa: BLE001 - e.g. other required arguments
+            cmeta = None
+        if cmeta is not None:
+            for multifile in (True, False):
+                arg = cmeta.clone()
+                sdir = tempfile.mkdtemp(prefix="savem_", dir=workdir)
+                ob = observe(parser, "save:loaded-from-file:%s" % ("multi" if multifile else "single"), lambda arg=arg, sdir=sdir, multifile=multifile: parser.save(arg, os.path.join(sdir, "out.yaml"), multifile=multifile, overwrite=True), {"cfg": arg})
+                J(ob, "save")
+            arg = cmeta.clone()
+            J(observe(parser, "dump:loaded-from-file", lambda arg=arg: parser.dump(arg), {"cfg": arg}), "save")
+            ctx.hist("save-with-meta", "__path__" if "__path__" in repr(cmeta) else "no-meta")
     if want("instantiate_classes"):
         for tag, c in cfgs[:1] + ([("boom", boom)] if boom is not None else []) + cfgs[2:]:
-            arg = c.clone()
+            arg = c.clone() if tag != "empty" else Namespace()
             n0 = len(m.CREATED)
             ob1 = observe(parser, "instantiate_classes:" + tag, lambda arg=arg: parser.instantiate_classes(arg), {"cfg": arg})
             n1 = len(m.CREATED)
@@ -1456,7 +1543,8 @@ def run_scenario(ctx, batch, sc, origin, only_op=None):
             J(ob2, "instantiate_classes")
             if ob1.outcome == "ok" and ob2.outcome == "ok":
                 o1, o2 = user_objects(ob1.result), user_objects(ob2.result)
-                nspec = count_specs(arg)
+                nspec_cfg = count_specs(arg)
+                nspec = nspec_cfg + (1 if sc.get("group") else 0)   # the class group is instantiated from any configuration
                 ctx.hist("specs", min(nspec, 6))
                 common = {id(x) for x in o1} & {id(x) for x in o2}
                 live = {id(x) for x in live_signature_defaults()}
@@ -1474,13 +1562,160 @@ def run_scenario(ctx, batch, sc, origin, only_op=None):
                     ctx.violation("instantiate_classes: " + problem, dict(replay, kind="oracle", op="instantiate_classes:fresh", only_op="instantiate_classes", problem=problem))
                 # model: one fresh object per spec
                 if ob1.registry.roots.get("cfg"):
-                    def check(out, nspec=nspec):
+                    def check(out, nspec=nspec_cfg):
                         if len(out["objs"]) != nspec:
                             return "number of objects: model %d, real config has %d specs" % (len(out["objs"]), nspec)
                         return None
                     batch.add(model_case("instantiate", ob1.registry, ["cfg"]), check, {"kind": "instantiate-count", "scenario": replay})
+    if want("history"):
+        try:
+            run_history(ctx, batch, sc, cfg, rng, workdir, replay)
+        except MachineryError:
+            raise
     shutil.rmtree(workdir, ignore_errors=True)
     return len(ctx.violations) + getattr(ctx, "violations_total", 0) - bad0
+
+
+# ====================================================================== histories
+def run_history(ctx, batch, sc, cfg, rng, workdir, replay):
+    """a random sequence of operations on a FRESH parser of the scenario; results are fed back as arguments; before and
+    after every step EVERYTHING the caller holds (its own objects and every earlier result) is snapshotted.
+    Includes set_defaults / add_argument(default=) with the caller's own mutable objects: they must stay as they are
+    through the whole history although the parser keeps them as declared defaults."""
+    from jsonargparse import Namespace
+
+    import warnings
+
+    try:
+        parser = build_parser(sc, workdir)
+    except Exception:  # noqa: BLE001
+        return
+    warnings.filterwarnings("ignore", message=r"(?s).*Unable to serialize instance.*")   # dumping an instantiated result warns: not the point here
+    J = lambda ob: judge(ctx, ob, dict(replay, only_op="history"))  # noqa: E731
+    flat = sc["input"]
+    raw = None
+    try:
+        raw = to_namespace(nest({**{a["name"]: None for a in sc["args"]}, **flat}))
+    except Exception:  # noqa: BLE001
+        pass
+    argv = to_argv(flat)
+    # the caller's own objects: an accepted config, a caller-built one, an argv list, an env mapping, values to become defaults
+    pool = [cfg.clone(), raw if raw is not None else cfg.clone(), argv]
+    givens = {}
+    for a in sc["args"]:
+        if a["name"] in flat and kind_of(flat[a["name"]]) is not None and "." not in a["name"]:
+            givens[a["name"]] = copy.deepcopy(flat[a["name"]])
+    pool.append(givens)
+    n_initial = len(pool)
+    reg0 = Registry()
+    for i, x in enumerate(pool):
+        reg0.add("p%d" % i, x)
+    # declared defaults of the parser, as the model's `ds`
+    ds = []
+    dreg_names = []
+    for action in parser._actions:
+        if action.default is not None and action.default != argparse.SUPPRESS and kind_of(action.default) is not None and action.dest != "cfg":
+            root = reg0.add("default:" + action.dest, action.default)
+            if root:
+                ds.append([action.dest, reg0.tree(root)])
+                dreg_names.append(action.dest)
+    n_ids = len(reg0.objs)
+    ops_model = []
+    steps = rng.randint(4, 8)
+    did_set = False
+
+    def held():
+        return {"h%d" % i: x for i, x in enumerate(pool) if x is not None}
+
+    def pick_ns():
+        idx = [i for i, x in enumerate(pool) if isinstance(x, Namespace)]
+        return rng.choice(idx)
+
+    for step in range(steps):
+        kind = rng.choice(["dump", "validate", "merge", "strip_unknown", "instantiate", "parse_object", "parse_object_base", "parse_args",
+                           "parse_args_ns", "parse_text", "save", "get_defaults", "set_default", "set_default"])
+        a = pick_ns()
+        b = pick_ns()
+        res_holder = {}
+        mop = None
+        if kind == "dump":
+            fn, mop, hands = (lambda a=a: parser.dump(pool[a])), {"o": "dump", "a": a}, False
+        elif kind == "validate":
+            fn, mop, hands = (lambda a=a: parser.validate(pool[a])), {"o": "validate", "a": a}, False
+        elif kind == "merge":
+            fn, mop, hands = (lambda a=a, b=b: parser.merge_config(pool[a], pool[b])), {"o": "merge", "a": a, "b": b}, True
+        elif kind == "strip_unknown":
+            known = known_leaf_keys(parser, pool[a])
+            fn, mop, hands = (lambda a=a: parser.strip_unknown(pool[a])), {"o": "strip_unknown", "a": a, "known": known}, True
+        elif kind == "instantiate":
+            fn, mop, hands = (lambda a=a: parser.instantiate_classes(pool[a])), {"o": "instantiate", "a": a}, True
+        elif kind == "parse_object":
+            fn, mop, hands = (lambda a=a: parser.parse_object(pool[a])), {"o": "parse_object", "a": a}, True
+        elif kind == "parse_object_base":
+            fn, mop, hands = (lambda a=a, b=b: parser.parse_object(pool[a], cfg_base=pool[b])), {"o": "parse_object", "a": a, "b": b}, True
+        elif kind == "parse_args":
+            fn, mop, hands = (lambda: parser.parse_args(pool[2])), {"o": "parse_args", "a": 2}, True
+        elif kind == "parse_args_ns":
+            fn, mop, hands = (lambda a=a: parser.parse_args(pool[2][:1], namespace=pool[a])), {"o": "parse_args", "a": 2, "b": a}, True
+        elif kind == "parse_text":
+            text = json.dumps(nest(flat))
+            fn, mop, hands = (lambda text=text: parser.parse_string(text)), {"o": "parse_text", "shape": 0}, True
+        elif kind == "save":
+            mf = rng.random() < 0.5
+            path = os.path.join(tempfile.mkdtemp(prefix="hs_", dir=workdir), "o.yaml")
+            fn, mop, hands = (lambda a=a, mf=mf, path=path: parser.save(pool[a], path, multifile=mf, overwrite=True)), {"o": "save", "a": a, "multifile": mf}, False
+        elif kind == "get_defaults":
+            fn, mop, hands = (lambda: parser.get_defaults()), {"o": "get_defaults"}, True
+        else:
+            if not givens:
+                continue
+            did_set = True
+            fn, mop, hands = (lambda: parser.set_defaults(pool[3])), None, False
+        is_set = kind == "set_default"
+        if is_set:
+            # the declared defaults change by design; what must not change is everything the caller holds
+            reg = Registry()
+            for name, x in held().items():
+                reg.add(name, x)
+            g0 = global_state()
+            try:
+                fn()
+                outcome = "ok"
+            except BaseException as ex:  # noqa: BLE001
+                outcome = type(ex).__name__
+            _LAST_DV.clear()
+            ob = Observation("history:set_defaults", outcome, reg.changed(), [], global_diff(g0, global_state()), False, reg, None)
+            if outcome == "ok":
+                for dest in givens:
+                    ops_model.append({"o": "set_default", "s": dest, "a": 3})   # model: the held dict's values; the dict itself is index 3
+        else:
+            ob = observe(parser, "history:" + kind, fn, held(), track_defaults=False)
+            ops_model.append(mop)
+        ctx.hist("history-ops", kind)
+        J(ob)
+        if hands and not is_set:
+            pool.append(ob.result if ob.outcome == "ok" and isinstance(ob.result, Namespace) else None)
+    ctx.hist("history-len", steps)
+    if did_set:
+        ctx.hist("history-ops", "with-set_defaults")
+        # aliasing in the other direction, characterised (argparse semantics, tie_defaults_kept): the parser kept the caller's objects
+        kept = [a.default is givens[a.dest] for a in parser._actions if a.dest in givens]
+        ctx.hist("set_defaults-keeps-caller-object", str(all(kept)))
+    # model: the same history; whatever it writes inside the caller's initial objects must be inside `shared`,
+    # and must cover what really changed there over the whole history
+    changed0 = sorted(n for n in reg0.changed() if n <= n_ids)
+    # declared defaults replaced by set_defaults are no longer the parser's: only in-place changes count (reg0 holds the old objects)
+    env = [reg0.tree(reg0.roots["p%d" % i]) if reg0.roots.get("p%d" % i) else 0 for i in range(n_initial)]
+
+    def check(out, changed0=changed0, n_ids=n_ids):
+        caller = sorted(set(x for x in out["writes"] if x <= n_ids))
+        if not set(caller) <= set(out["shared"]):
+            return "model history writes caller cells outside shared (contradicts C08_history_exact): %s" % caller
+        if not set(changed0) <= set(caller):
+            return "the real history changed caller containers %s, the model allows only %s" % (changed0, caller)
+        return None
+
+    batch.add({"op": "history", "k": n_ids + 1, "ds": ds, "env": env, "ops": ops_model}, check, {"kind": "history", "scenario": replay, "ops": [o["o"] for o in ops_model]})
 
 
 # ====================================================================== bracket cases (cwd under failure)
@@ -1585,6 +1820,89 @@ def bracket_cases(ctx):
     return [c[0] for c in cases + cases2]
 
 
+# ====================================================================== declared defaults of every container kind
+def default_kind_cases(ctx):
+    """one parser per kind of declared default — list, tuple holding a list, set, frozenset, dict subclass (defaultdict), list
+    subclass, dataclass instance, lazy_instance, Path object, Namespace, and the two kinds of the open finding (OrderedDict,
+    namedtuple) — given through add_argument(default=) AND through set_defaults; every operation afterwards must leave the
+    caller's object (which the parser keeps as action.default) exactly as it was"""
+    import dataclasses
+    from typing import Any, Dict, List, Optional, Set, Tuple
+
+    from jsonargparse import ArgumentParser, Namespace, lazy_instance
+    from jsonargparse.typing import Path_fr
+
+    m = usermod()
+
+    @dataclasses.dataclass
+    class DC:
+        xs: List[int] = dataclasses.field(default_factory=lambda: [1, 2])
+        t: Tuple[int, List[int]] = (1, [2])
+
+    kinds = [
+        ("list", List[List[int]], lambda: [[1], [2, 3]]),
+        ("tuple-with-list", Tuple[int, List[int]], lambda: (1, [2])),
+        ("dict", Dict[str, List[int]], lambda: {"a": [1], "b": []}),
+        ("set", Set[int], lambda: {1, 2}),
+        ("set-of-tuples", Set[Tuple[int, int]], lambda: {(1, 2), (3, 4)}),
+        ("frozenset", Any, lambda: frozenset({(1, 2)})),
+        ("defaultdict", Any, lambda: collections.defaultdict(list, a=[1, [2]])),
+        ("list-subclass", Any, lambda: MyList([[1], {"k": [2]}])),
+        ("dict-typed-defaultdict", Dict[str, List[int]], lambda: collections.defaultdict(list, a=[1])),
+        ("dataclass-instance", DC, lambda: DC()),
+        ("lazy_instance", m.Base, lambda: lazy_instance(m.Sub, x=4)),
+        ("path-object", Optional[Path_fr], lambda: Path_fr(exists_file())),
+        ("list-of-paths", List[Path_fr], lambda: [Path_fr(exists_file())]),
+        ("input-form-strings", Dict[str, List[int]], lambda: {"k": ["1", "2"]}),
+        ("ordereddict", collections.OrderedDict[str, Tuple[int, m.Color]], lambda: collections.OrderedDict(a=(1, m.Color.red))),
+        ("namedtuple", Tuple[int, List[int]], lambda: NT(1, [2])),
+    ]
+    done = []
+    for name, typ, mk in kinds:
+        for how in ("add_argument", "set_defaults"):
+            label = "default-kind:%s:%s" % (name, how)
+            given = mk()
+            try:
+                p = ArgumentParser(exit_on_error=False)
+                if how == "add_argument":
+                    p.add_argument("--v", type=typ, default=given)
+                else:
+                    p.add_argument("--v", type=typ)
+                    holder = {"v": given}
+                    p.set_defaults(holder)
+            except Exception as ex:  # noqa: BLE001 - a default the parser refuses is not a case
+                ctx.hist("default-kinds", "%s:unbuildable:%s" % (name, type(ex).__name__))
+                continue
+            ctx.hist("default-kinds", name)
+            done.append(label)
+            rep = {"kind": "default-kind", "case": label, "only_op": label}
+            state = {}
+
+            def parse(p=p, state=state):
+                state["cfg"] = p.parse_args([])
+                return state["cfg"]
+
+            ops = [("parse_args", parse), ("get_defaults", lambda p=p: p.get_defaults()),
+                   ("dump", lambda p=p, state=state: p.dump(state["cfg"])),
+                   ("instantiate_classes", lambda p=p, state=state: p.instantiate_classes(state["cfg"])),
+                   ("instantiate_classes:second", lambda p=p, state=state: p.instantiate_classes(state["cfg"])),
+                   ("parse_object", lambda p=p: p.parse_object({})),
+                   ("validate", lambda p=p, state=state: p.validate(state["cfg"])),
+                   ("format_help", lambda p=p: p.format_help())]
+            for opname, fn in ops:
+                if "cfg" not in state and opname not in ("parse_args", "get_defaults", "parse_object", "format_help"):
+                    continue
+                ob = observe(p, "%s:%s" % (label, opname), fn, {"given": given}, track_defaults=False)
+                # what the library hands out must not contain a writable container of the caller's object
+                if ob.outcome == "ok" and ob.result is not None and not isinstance(ob.result, str):
+                    shared = [i for kind, i in shape_of_result(ob.result, ob.registry) if i and kind in ("list", "dict", "ns", "odict")]
+                    if shared and not all(finding_signature(ob.registry, i) for i in shared):
+                        ctx.violation("%s hands out a writable container of the declared default the caller gave" % ob.label,
+                                      dict(rep, op=ob.label, changes=[ob.registry.describe(i) for i in shared[:4]]))
+                judge(ctx, ob, rep)
+    return done
+
+
 # ====================================================================== findings
 def witness_odict():
     """the open finding's witness; returns description of what changed, or None"""
@@ -1610,7 +1928,9 @@ def run(ctx: Ctx):
                 "optional subcommand) x {accepted, caller-built raw, invalid-deep-inside, raising-constructor} configurations x every "
                 "operation of the property; each real call bracketed by deep snapshots of arguments, declared defaults, get_defaults(), "
                 "cwd, environ, vars(argparse), sys.argv, context variables; non-trivial = scenario whose accepted configuration holds a "
-                "container or a class spec (distinct by parser+input), plus recreate/adapt correspondence values with >= 2 containers")
+                "container or a class spec (distinct by parser+input), plus recreate/adapt correspondence values with >= 2 containers; "
+                "per scenario one random history (4-8 operations, results fed back, set_defaults with the caller's objects); 16 kinds "
+                "of declared default x {add_argument, set_defaults} x 8 operations")
     ctx.assumptions = [
         "aliasing inside one value (the same list passed twice, YAML anchors) is outside the model; the harness records such a container once",
         "objects of user classes are atoms: what a constructor does with its arguments is not the library's doing",
@@ -1641,6 +1961,7 @@ def run(ctx: Ctx):
             run_scenario(ctx, batch, c["scenario"], "corpus:" + c.get("name", "?"))
     # ---- bracket cases
     ctx.extra["bracket_cases"] = bracket_cases(ctx)
+    ctx.extra["default_kind_cases"] = len(default_kind_cases(ctx))
 
     phases["corpus_and_brackets"] = round(ctx.elapsed(), 1)
     # ---- generated scenarios
@@ -1695,6 +2016,12 @@ def replay(ctx: Ctx, body):
 
         p = subprocess.run(["/venv/bin/python", os.path.join(VERIF, r["demo"])], env=dict(os.environ, PYTHONPATH=REPO))
         return 1 if p.returncode else 0
+    if r.get("kind") == "default-kind":
+        before = len(ctx.violations)
+        default_kind_cases(ctx)
+        for v in ctx.violations[before:]:
+            print("still failing:", v["what"])
+        return 1 if len(ctx.violations) > before else 0
     if r.get("kind") == "bracket" or "case" in r:
         before = len(ctx.violations)
         bracket_cases(ctx)
